@@ -53,11 +53,11 @@ def belt_configs(tier, seed):
                   "pattern": "concurrent", "concurrent": True})
     # a stall that begins while a follower is in transit (or just entering), and a request for space that arrives
     # during the stall: long stall, short stall, repeated stalls; geometry-relative instants
-    for typ, acc, (cap, slot) in itertools.product(["conveyor", "slotted"], [0, 1], [(3, 4), (4, 1), (5, 2), (4, 3)]):
+    for typ, acc, (cap, slot) in itertools.product(["conveyor", "slotted"], [0, 1], [(3, 4), (4, 1), (5, 2), (4, 3), (10, 2), (8, 1)]):
         L = cap * slot
-        for an, a in [("follower+request", [0, 2 * slot, L + slot]), ("entering", [0, L - slot // 2 if slot > 1 else L - 1, L + 2 * slot]),
+        for an, a in [("follower+request", [0, 2 * slot, L + slot]), ("wide", [0, 4 * slot, L + 2 * slot, L + 5 * slot]), ("entering", [0, L - slot // 2 if slot > 1 else L - 1, L + 2 * slot]),
                       ("three", [0, slot, 3 * slot, L + 1, L + 2 * slot + 1])]:
-            for sn, sv in [("long", [4 * L, 0, 0, 0, 0]), ("short", [slot, 0, 2 * slot, 0]), ("again", [L, L, L, L]),
+            for sn, sv in [("long", [4 * L, 0, 0, 0, 0]), ("one-length", [L, 0, 0, 0, 0]), ("short", [slot, 0, 2 * slot, 0]), ("again", [L, L, L, L]),
                            ("odd", [slot + 1, 1, L + 1])]:
                 C.append({"type": typ, "acc": acc, "cap": cap, "slot": slot, "Q": Q, "T": 20 * L + 200, "arrivals": a, "service": sv,
                           "pattern": "stall/%s/%s" % (an, sn)})
